@@ -169,8 +169,68 @@ class Feedback(_Step):
     return self_._num_feedbacks == old['nf'] + 1 and self_._num_proposals == old['np']
 
 
+# ---------------------------------------------------------------------------
+# native replay shared by the step contracts: run an algorithm for n proposals
+# with feedback for the first f of them, recover a fresh instance from that
+# history and compare the continuation with the uninterrupted run.
+
+def _continuation_differs(make, n, f, more=3):
+  space = pg.Dict(x=pg.oneof([0, 1, 2]), y=pg.oneof([0, 1]))
+  spec_ = pg.dna_spec(space)
+  live = make()
+  live.setup(spec_)
+  history = []
+  for i in range(n):
+    try:
+      d = live.propose()
+    except StopIteration:
+      break
+    r = None
+    if i < f:
+      r = float(i)
+      live.feedback(d, r)
+    history.append((d, r))
+  rec = make()
+  rec.setup(spec_)
+  rec.recover([(d.clone(deep=True), r) for d, r in history])
+  def nxt(g):
+    out = []
+    for _ in range(more):
+      try:
+        out.append(repr(g.propose()))
+      except StopIteration:
+        out.append('STOP')
+        break
+    return out
+  a, b_ = nxt(live), nxt(rec)
+  counts_l = (live.num_proposals, live.num_feedbacks)
+  return (a != b_), f'after {n} proposals ({f} with feedback): uninterrupted run continues with {a}, recovered instance with {b_}'
+
+
+class _ContinuationReplay:
+  make = None
+
+  def replay(self, obligation, m):
+    n, f = m.get('n'), m.get('f')
+    if n is None:
+      n, f = 3, 1
+    seed = m.get('seed')
+    differs, detail = _continuation_differs(lambda: type(self).make(seed), n, f)
+    return dict(outcome='reproduced' if differs else 'not-reproduced',
+                detail=(f'seed={seed}: ' if seed is not None else '') + detail)
+
+  def small_models(self):
+    from pyvc.contracts import Model
+    for seed in self.seeds:
+      for n in range(1, 5):
+        for f in range(0, n + 1):
+          yield Model(dict(n=n, f=f, seed=seed), {})
+
+
 @register
-class SweepingPropose(_Step):
+class SweepingPropose(_ContinuationReplay, _Step):
+  make = staticmethod(lambda seed: geno.Sweeping())
+  seeds = (None,)
   """Sweeping._propose: the proposal is next_dna(last proposal) and becomes
   the last proposal -- the state `_replay(d)` installs for the same d."""
   target = 'pyglove.core.geno.sweeping:Sweeping._propose'
@@ -210,7 +270,9 @@ class SweepingPropose(_Step):
 
 
 @register
-class SweepingReplay(_Step):
+class SweepingReplay(_ContinuationReplay, _Step):
+  make = staticmethod(lambda seed: geno.Sweeping())
+  seeds = (None,)
   target = 'pyglove.core.geno.sweeping:Sweeping._replay'
 
   def inputs(self, b):
@@ -253,7 +315,9 @@ class _RandomBase(_Step):
 
 
 @register
-class RandomPropose(_RandomBase):
+class RandomPropose(_ContinuationReplay, _RandomBase):
+  make = staticmethod(lambda seed: geno.Random(seed=seed))
+  seeds = (0, 1, 7)
   """Random._propose: exactly one draw from (spec, rng)."""
   target = 'pyglove.core.geno.random:Random._propose'
 
@@ -267,7 +331,9 @@ class RandomPropose(_RandomBase):
 
 
 @register
-class RandomReplay(_RandomBase):
+class RandomReplay(_ContinuationReplay, _RandomBase):
+  make = staticmethod(lambda seed: geno.Random(seed=seed))
+  seeds = (0, 1, 7)
   """Random._replay with a seed: exactly one draw from (spec, rng), i.e. the
   rng advances as in the live `_propose`; without a seed: no claim, no draw
   needed."""
